@@ -2123,6 +2123,21 @@ impl World {
         let finished = node.shadow.as_ref().map(|s| s.finished());
         node.final_hash = Some(hs.get_handshake_hash().to_vec());
         let site = format!("convert/{}", if stateless { "stateless" } else { "stateful" });
+        let mut hs = hs;
+        // the raw split (feature risky-raw-split) is the specification's Split() of the final
+        // chaining key; asking for it (also mid-handshake) must not disturb the session
+        if self.call_id % 3 == 0 {
+            match guarded(|| hs.dangerously_get_raw_split()) {
+                Err(p) => self.flag(&["C10"], "panic", "raw-split", &p),
+                Ok((k1, k2)) => {
+                    if let (Some(true), Some(Some((a, b)))) = (finished, node.shadow.as_ref().map(|s| s.split)) {
+                        if k1 != a || k2 != b {
+                            self.flag(&["C01"], "raw-split-differs-from-model", &site, "dangerously_get_raw_split() is not Split() of the final chaining key");
+                        }
+                    }
+                },
+            }
+        }
         self.begin_call(&node, 0);
         // both public entry points: the into_* methods and the TryFrom impls
         let via_tryfrom = self.call_id % 2 == 0;
